@@ -161,9 +161,12 @@ def type_object_type(
     )
 
     if info.type_object_type is not None:
-        if allow_cache:
+        if not allow_cache:
+            info.type_object_type = None
+        elif state.strict_optional:
+            # The cached type was computed with strict_optional=True (see below), so it
+            # must not be used by a module that is checked without strict optional.
             return info.type_object_type
-        info.type_object_type = None
 
     # We take the type from whichever of __init__ and __new__ is first
     # in the MRO, preferring __init__ if there is a tie.
